@@ -1,4 +1,4 @@
 #!/bin/bash
 # serialised build:  coq/build.sh [targets…]   (e.g. Props/C38.vo; no target = everything)
 cd "$(dirname "$0")" || exit 2
-exec flock .build.lock bash -c './mkproject.sh && timeout 3000 make -j8 "$@"' _ "$@"
+exec flock .build.lock bash -c './mkproject.sh && timeout 3000 make -j16 "$@"' _ "$@"
